@@ -109,6 +109,23 @@ def discover(spec, x, ARR):
     return out
 
 
+def structure_sig(spec, x, ARR):
+    """Reference tree structure (what jax's PyTreeDef distinguishes) for leaf type `spec`."""
+    if flat_match(spec, x, ARR):
+        return "*"
+    if x is None:
+        return ("None",)
+    if isinstance(x, Node):
+        return ("Node",) + tuple(structure_sig(spec, c, ARR) for c in x.children)
+    if isinstance(x, dict):
+        return ("dict", tuple(sorted(x))) + tuple(structure_sig(spec, x[k], ARR) for k in sorted(x))
+    if isinstance(x, tuple) and hasattr(x, "_fields"):
+        return ("namedtuple", type(x).__name__) + tuple(structure_sig(spec, c, ARR) for c in x)
+    if isinstance(x, (tuple, list)):
+        return (type(x).__name__,) + tuple(structure_sig(spec, c, ARR) for c in x)
+    return "*"
+
+
 def full_match(V, spec, x, B, ARR, args=None, tp=None):
     """Sequential semantics of checking one value against the leaf type from state B.
     -> ('ACC'|'REJ'|'ERR', B_after)"""
